@@ -894,6 +894,8 @@ J_locale_tables(e) ==
      ELSE
      R(<<"tables", "plural", name>>,
        ArrClause("cldr-plural-rule", L.plural_cat, 1001, LAMBDA k : CldrPlural(name, k - 1))
+       \o V("cldr-plural-rule-large-counts", \A i \in 1..Len(L.plural_big) : L.plural_big[i][2] = CldrPlural(name, L.plural_big[i][1]),
+            {L.plural_big[i][1] : i \in {j \in 1..Len(L.plural_big) : L.plural_big[j][2] # CldrPlural(name, L.plural_big[j][1])}})
        \o V("categories-are-cldr", used \subseteq Cats, used)
        \o V("template-for-every-plural-category", missing = {}, missing)
        \* after / before wrap every difference relative to another value; ago / from_now only the "a few seconds" phrase
@@ -906,7 +908,9 @@ J_humanize(e) ==
       c == a.comps
       \* direction decided by the specification from the two values: the instance later than the reference is "future"
       x == e.pre[1]  y == e.pre[2]
-      later == IF x.k = "time" THEN D3Lt(TimeD3(y.w), TimeD3(x.w)) ELSE I3Lt(PointOf(y), PointOf(x))
+      later == IF x.k = "time" THEN D3Lt(TimeD3(y.w), TimeD3(x.w))
+               ELSE IF x.k = "date" THEN Ord(y.w[1], y.w[2], y.w[3]) < Ord(x.w[1], x.w[2], x.w[3])     \* a Date looks at dates only
+               ELSE I3Lt(PointOf(y), PointOf(x))
       dir == IF later THEN "future" ELSE "past"
       cands == HumanCandidates(L, c, a.is_now, a.absolute, dir)
       li == LargestIdx(c)
